@@ -10,7 +10,7 @@ PROPS = {
     'C02': dict(families=['strings'], bounded='pvf.bounded.c02', level='other'),
     'C03': dict(families=[], bounded='pvf.bounded.c03', level='other'),
     'C04': dict(families=['layout', 'normalize'], bounded='pvf.bounded.c04', level='proof'),
-    'C05': dict(families=['layout', 'normalize'], bounded='pvf.bounded.c05', level='other'),
+    'C05': dict(families=['layout', 'normalize'], bounded='pvf.bounded.c05', level='proof'),
     'C06': dict(families=['layout', 'normalize'], bounded='pvf.bounded.c06', level='other'),
     'C07': dict(families=[], bounded='pvf.bounded.c07', level='other'),
     'C08': dict(families=[], bounded='pvf.bounded.c08', level='other'),
